@@ -100,6 +100,7 @@ func OpenBucket(urlStr string, bucketName string, mode OpenMode) (b *Bucket, err
 	if bucket != nil {
 		return bucket, nil
 	}
+	verifPoint("open.cachemiss", bucketName)
 
 	query := u.Query()
 	inMemory := query.Get("mode") == "memory"
@@ -197,6 +198,7 @@ func OpenBucket(urlStr string, bucketName string, mode OpenMode) (b *Bucket, err
 
 	hlc.updateLatestTime(bucket.getLastTimestamp())
 
+	verifPoint("open.beforeregister", bucketName)
 	exists, bucketCopy := registerBucket(bucket)
 	// someone else beat registered the bucket in the registry, that's OK we'll close ours
 	if exists {
@@ -334,8 +336,10 @@ func (bucket *Bucket) inTransaction(fn func(txn *sql.Tx) error) error {
 	// However, these errors can still occur (somehow?), so we retry if we get one.
 	// --Update, 25 July 2023: After adding "_txlock=immediate" to the DB options when opening,
 	// the busy/locked errors have gone away. But there's no harm leaving the retry code in place.
+	verifPoint("txn.enter")
 	bucket.mutex.Lock()
 	defer bucket.mutex.Unlock()
+	verifPoint("txn.locked")
 
 	if bucket.closed {
 		return ErrBucketClosed
@@ -354,14 +358,20 @@ func (bucket *Bucket) inTransaction(fn func(txn *sql.Tx) error) error {
 			break
 		}
 
+		verifPoint("txn.begin")
 		err = fn(txn)
 
 		if err == nil {
+			verifPoint("txn.precommit")
 			err = txn.Commit()
+			if err == nil {
+				verifPoint("txn.committed")
+			}
 		}
 
 		if err != nil {
 			_ = txn.Rollback()
+			verifPoint("txn.aborted")
 			if sqliteErrCode(err) == sqlite3.ErrBusy || sqliteErrCode(err) == sqlite3.ErrLocked {
 				continue // retry
 			} else {
